@@ -405,6 +405,9 @@ func (g *Gen) Value(t reflect.Type, depth int) reflect.Value {
 				n = 2
 			}
 		}
+		if t.Key().Kind() == reflect.Ptr && n > 1 {
+			n = 1 // distinct pointer keys may resolve to the same text: the order of equal keys is unspecified in both libraries
+		}
 		m := reflect.MakeMapWithSize(t, n)
 		prefix := ""
 		if r.Chance(1, 3) {
